@@ -14,18 +14,8 @@ from bincodec_common import kind, sx
 
 DRIVER = 'drv_C01'
 
-KNOWN_LOCAL = [
-    {'id': 'C01-fixed-overlong', 'property': 'C01', 'status': 'known', 'signature': {'kind': 'fixed-overlong'},
-     'what': 'a fixed-width string longer than its width is written in full: reported length != bytes produced, the field '
-             'occupies more than its declared width and the following fields decode misaligned'},
-    {'id': 'C01-char-empty', 'property': 'C01', 'status': 'known', 'signature': {'kind': 'char-empty'},
-     'what': "the empty string in a char field encodes to zero bytes while one byte is reported"},
-    {'id': 'C01-fixed-strip', 'property': 'C01', 'status': 'known', 'signature': {'kind': 'fixed-strip'},
-     'what': 'fixed-width strings are read back through str.strip(): characters other than the pad character '
-             r'(\t \n \v \f \r \x1c-\x1f \x85 \xa0) at either end are lost'},
-    {'id': 'C01-record-empty', 'property': 'C01', 'status': 'known', 'signature': {'kind': 'record-empty'},
-     'what': 'a record / message without fields cannot be encoded (IndexError in Record.to_bytes)'},
-]
+KNOWN_LOCAL = []     # the four defects found here (fixed-overlong, char-empty, fixed-strip, record-empty) are repaired in /repo;
+#                      their inputs are regressions in corpus/C01 and must pass
 
 
 def report(ctx, what, replay):
@@ -100,22 +90,6 @@ def fails_oracle(B, tail):
     return f
 
 
-def classify_fixed(ty, v):
-    """known-finding signature for a value outside the round-trip domain, if it is one of the recorded defects"""
-    k = kind(ty)
-    if v == 'none' or v[0] != 's':
-        return None
-    cs = v[1:]
-    if k == 'fixed' and len(cs) > ty[2]:
-        return 'fixed-overlong'
-    if k == 'char' and len(cs) == 0:
-        return 'char-empty'
-    if k == 'fixed' and cs and (chr(cs[0]) in bc.PY_STRIP or chr(cs[-1]) in bc.PY_STRIP) \
-            and chr(cs[0]) != ' ' and chr(cs[-1]) != ' ':
-        return 'fixed-strip'
-    return None
-
-
 # ------------------------------------------------------------------ case lists
 def int_boundary_cases(tier):
     out = []
@@ -144,7 +118,7 @@ def text_boundary_cases(tier):
         for c in range(limit):
             out.append((['char', iso], ['s', c]))
             out.append((['str', iso], ['s', c]))
-            if chr(c) not in bc.PY_STRIP:
+            if chr(c) != bc.PAD:
                 out.append((['fixed', iso, 1, False], ['s', c]))
                 out.append((['fixed', iso, 3, c % 2 == 0], ['s', c]))
                 out.append((['fixed', iso, 3, False], ['s', c, 32, c]))
@@ -397,12 +371,12 @@ def run_messages(ctx, B, n_cases):
                 ctx.disagree(f'message body round trip: model {a_rt[:80]} vs implementation consumed={m} {dval[:60]}', rep)
             if a_unknown != 'err key':
                 ctx.disagree(f'bin.msg.dec unknown id: model {a_unknown[:60]}', rep)
-    # a message without fields (the spec parser accepts `<message>` without `<fields>`): known finding C01-record-empty
+    # a message without fields (the spec parser accepts `<message>` without `<fields>`); regression of 8ed2437
     for style in ('itch', 'ouch', 'sqf'):
-        bad, _ = message_case(B, style, [(77, ['record'])], 0, ['r'], b'')
+        bad, _ = message_case(B, style, [(77, ['record'])], 0, ['r'], b'\x01')
         ctx.case(f'msg {style} no fields', nontrivial=True)
         if bad:
-            report(ctx, bad, {'kind': 'record-empty', 'style': style, 'reg': '((77 0 ()))', 'cls': 0, 'val': '(r)', 'tail': ''})
+            report(ctx, bad, {'kind': 'msg', 'style': style, 'reg': '((77 0 ()))', 'cls': 0, 'val': '(r)', 'tail': '01'})
 
 
 # ------------------------------------------------------------------ main
@@ -560,33 +534,32 @@ def run(ctx):
 
 
 def off_domain_oracle(ctx, B, ty, v, pobj, tail):
-    """clauses of the statement that hold for *every* assignable value: reported length == bytes produced, fixed width.
-    Only values that went through the typed attributes count (malformed ones are compared with the model only)."""
+    """clauses of the statement that hold for *every* assignable value: reported length == bytes produced, a fixed-width
+    field occupies exactly its width, a char exactly one byte.  Only values that went through the typed attributes count
+    (malformed ones are compared with the model only)."""
     T = B.build(ty)
     r = bc.impl_encode(T, pobj)
-    if ty == ['record'] and v == ['r']:
-        if r[0] != 'ok':
-            report(ctx, f'a record without fields cannot be encoded: {r[1]}', {'kind': 'record-empty', 'ty': sx(ty), 'val': sx(v), 'tail': tail.hex()})
-        return
-    if kind(ty) == 'record' and len(ty) == 3 and kind(ty[2][1]) == 'int':
-        leaf_ty, leaf_v = ty[1][1], v[1][1]
+    if kind(ty) == 'record' and len(ty) == 3 and kind(ty[2][1]) == 'int' and v != 'none' and len(v) == 3:
+        leaf_ty, leaf_v, inner = ty[1][1], v[1][1], True
     else:
-        leaf_ty, leaf_v = ty, v
-    sig = classify_fixed(leaf_ty, leaf_v)
-    if kind(leaf_ty) not in ('fixed', 'char', 'str'):
+        leaf_ty, leaf_v, inner = ty, v, False
+    if kind(leaf_ty) not in ('fixed', 'char', 'str') or leaf_v == 'none' or leaf_v[0] != 's':
         return
-    rep = {'kind': sig or 'offdomain', 'ty': sx(ty), 'val': sx(v), 'tail': tail.hex()}
+    rep = {'kind': 'offdomain', 'ty': sx(ty), 'val': sx(v), 'tail': tail.hex()}
+    if any(c >= (256 if leaf_ty[1] else 128) for c in leaf_v[1:]):
+        return                                  # not encodable in the charset: raising is right
     if r[0] != 'ok':
-        return
+        return                                  # e.g. a variable string longer than its 2-byte length prefix can say
     _, n, b = r
+    width = {'fixed': leaf_ty[2] if kind(leaf_ty) == 'fixed' else None, 'char': 1, 'str': None}[kind(leaf_ty)]
     if n != len(b):
         report(ctx, f'reported length {n} != {len(b)} bytes produced', rep)
-    elif kind(ty) == 'fixed' and len(b) != ty[2]:
-        report(ctx, f'fixed-width field of width {ty[2]} occupies {len(b)} bytes', rep)
-    elif sig == 'fixed-strip':
+    elif width is not None and len(b) != width + (2 if inner else 0):
+        report(ctx, f'{kind(leaf_ty)} field of width {width} occupies {len(b) - (2 if inner else 0)} bytes', rep)
+    elif inner:
         d = bc.impl_decode(T, b + tail)
-        if d[0] == 'ok' and bc.reads_differ(ty, pobj, d[2]):
-            report(ctx, 'fixed-width string loses a non-pad character at its end: ' + (bc.reads_differ(ty, pobj, d[2]) or ''), rep)
+        if d[0] != 'ok' or d[1] != len(b) or getattr(d[2], f'f{ty[2][0]}') != getattr(pobj, f'f{ty[2][0]}'):
+            report(ctx, 'the field after a fixed-width / char field is decoded misaligned', rep)
 
 
 def replay(ctx, path):
@@ -598,7 +571,7 @@ def replay(ctx, path):
     B = bc.Builder()
     ctx.case('replay ' + bc.short(json.dumps(rep)))
     ctx.case('replay-marker')
-    if rep.get('kind') in ('msg', 'record-empty') and 'reg' in rep:
+    if rep.get('kind') == 'msg' and 'reg' in rep:
         from common import parse_sx
         reg = parse_sx(rep['reg'])[0]
         defs = [(int(i), ['record'] + [[int(n), bc.ty_from_parsed(t), bc.val_from_parsed(d)] for n, t, d in fs]) for i, _c, fs in reg]
